@@ -61,6 +61,11 @@ def fnv64(b):
 
 
 # =================================================================== history programs
+# extension bytes that are NOT what pickling the dictionary again yields (protocol 1): a copy must
+# carry the source's extension bytes verbatim when the source has them
+RAW_EXT = pickle.dumps({'k': 'raw'}, 1)
+
+
 def mkdata(oid, n, rng):
     """a valid two-pickle record (so that pack's referencesf can read it); ends with '.'"""
     pad = rng.choice([0, 0, 1, 3, 9]) if rng else 0
@@ -110,7 +115,7 @@ def gen_program(rng, kind, ntx=None, small=False, multi_undo=None):
                 if not any(op[1] == o for op in ops):
                     ops.append(['d', o])
                     live[o] = False
-            elif kind == 'fileblob' and r < 0.65:
+            elif (kind == 'fileblob' or (kind == 'demo-bm' and not in_changes)) and r < 0.65:
                 o = rng.choice(oids)
                 if not any(op[1] == o for op in ops):
                     n += 1
@@ -138,7 +143,7 @@ def gen_program(rng, kind, ntx=None, small=False, multi_undo=None):
             base_oids |= so
         steps.append(dict(t=tid, u=rng.choice([b'', b'u', b'user.name', b'\xc3\xa9']).hex(),
                           d=rng.choice([b'', b'd', b'a description. with dots.', b'x' * 30]).hex(),
-                          e=rng.choice([None, None, 1, 'ext.']), ops=ops))
+                          e=rng.choice([None, None, 1, 'ext.', dict(raw=RAW_EXT.hex())]), ops=ops))
         if ops and (ops[0][0] != 'u' or rng.random() < 0.8):
             undoable.append(len(steps) - 1)
         tid += GAP * rng.choice([1, 1, 2, 7])
@@ -260,7 +265,10 @@ def run_steps(st, steps, serial, tids, d, built, index0=0):
                 # record the pack removes) is C07's business: the source simply stays unpacked
                 built.packfail += 1
             continue
-        ext = {} if s['e'] is None else {'k': s['e']}
+        if isinstance(s['e'], dict):
+            ext = bytes.fromhex(s['e']['raw'])      # raw extension bytes
+        else:
+            ext = {} if s['e'] is None else {'k': s['e']}
         t = TransactionMetaData(bytes.fromhex(s['u']), bytes.fromhex(s['d']), ext)
         st.tpc_begin(t, p64(s['t']))
         written = []
@@ -315,7 +323,7 @@ def build(prog, d, name='src'):
     kind = prog['kind']
     serial, tids = {}, {}
     if kind.startswith('demo'):
-        bk = 'mapping' if kind[5] == 'm' else 'file'
+        bk = {'m': 'mapping', 'f': 'file', 'b': 'fileblob'}[kind[5]]
         ck = 'mapping' if kind[6] == 'm' else 'file'
         # split counts transactions; find the step index
         nt, cut = 0, len(prog['steps'])
@@ -327,8 +335,13 @@ def build(prog, d, name='src'):
                 nt += 1
         base, _ = open_storage(bk, d, name + '-base')
         run_steps(base, prog['steps'][:cut], serial, tids, d, b)
-        changes, _ = open_storage(ck, d, name + '-changes')
-        st = ZODB.DemoStorage.DemoStorage(base=base, changes=changes)
+        if kind == 'demo-bm':
+            # a FRESH DemoStorage with its default volatile changes over a base that has blobs;
+            # no blob method is called on it before the copy (its lazy _blobify happens in the copy)
+            st = ZODB.DemoStorage.DemoStorage(base=base)
+        else:
+            changes, _ = open_storage(ck, d, name + '-changes')
+            st = ZODB.DemoStorage.DemoStorage(base=base, changes=changes)
         run_steps(st, prog['steps'][cut:], serial, tids, d, b, index0=cut)
         b.storage = st
         b.closers = [st.close]
@@ -366,7 +379,8 @@ def iter_dump(it, unpickle_ext=True):
                  None if getattr(r, 'data_txn', None) is None else r.data_txn.hex()) for r in t]
         out.append((t.tid.hex(), t.status if isinstance(t.status, str) else t.status.decode(),
                     t.user.hex(), t.description.hex(), ext_bytes(t).hex(),
-                    ext_repr(t) if unpickle_ext else '', recs))
+                    ext_repr(t) if unpickle_ext else '', recs,
+                    isinstance(getattr(t, 'extension_bytes', None), bytes)))
     return out
 
 
@@ -459,7 +473,7 @@ def history_oracle(dump):
 
 
 # =================================================================== (a) copy cases
-SRC_KINDS = ['file', 'file', 'file', 'fileblob', 'mapping', 'demo-mf', 'demo-ff', 'demo-mm']
+SRC_KINDS = ['file', 'file', 'file', 'fileblob', 'mapping', 'demo-mf', 'demo-ff', 'demo-mm', 'demo-bm']
 DST_KINDS = ['file', 'fileblob', 'blobwrap']
 
 
@@ -492,7 +506,7 @@ def run_copy_case(case, tmp):
         phase = 'source-iterator'
         src_dump = iter_dump(src.iterator())
         res['src_dump'] = src_dump
-        res['src_blobs'] = case['prog']['kind'] == 'fileblob'
+        res['src_blobs'] = case['prog']['kind'] in ('fileblob', 'demo-bm')
         # every iterator range at every tid boundary (start = tid-1, tid, tid+1; stop open or at a
         # later boundary): cheap, and exercises both scan directions of FileIterator._skip_to_start
         phase = 'range-iterator'
@@ -621,8 +635,13 @@ def judge_copy(case, res):
                     % (a, z, got, want))
     exp_dump = res['range_dump'] if case.get('range') else res['src_dump']
     # FileStorage <-> FileStorage keeps extension bytes verbatim; other sources re-pickle the dict
-    eb = case['prog']['kind'] in ('file', 'fileblob', 'demo-ff')
-    pv_s, pv_d = prop_view(exp_dump, eb), prop_view(res['dst_dump'], eb)
+    # "same metadata": where the source transaction HAS extension bytes (FileStorage family) the copy
+    # must carry exactly those bytes; a volatile source only has the dictionary (compared as such)
+    for i, (ts_, td_) in enumerate(zip(exp_dump, res['dst_dump'])):
+        if ts_[7] and ts_[:4] == td_[:4] and ts_[4] != td_[4]:
+            return ('C17:copy-extension-bytes-differ',
+                    'transaction %s: source extension bytes %s, destination %s' % (ts_[0], ts_[4], td_[4]))
+    pv_s, pv_d = prop_view(exp_dump, False), prop_view(res['dst_dump'], False)
     if pv_s != pv_d:
         k = [i for i in range(max(len(pv_s), len(pv_d)))
              if i >= len(pv_s) or i >= len(pv_d) or pv_s[i] != pv_d[i]][0]
@@ -680,7 +699,7 @@ def nontrivial_copy(res):
 def gen_copy_case(rng, i):
     kind = SRC_KINDS[i % len(SRC_KINDS)]
     prog = gen_program(rng, kind)
-    dst = rng.choice(DST_KINDS)
+    dst = rng.choice(DST_KINDS if kind != 'demo-bm' else ['fileblob', 'blobwrap'])
     case = dict(part='copy', prog=prog, dst=dst)
     if rng.random() < 0.3:
         ts = [s['t'] for s in txn_steps(prog)]
